@@ -401,6 +401,8 @@ def run_check(pid, tier, seed, progs, mode, sizes, ncore=0, core_total=0, assump
     work = vlib.mktmp(pid.lower())
     stats = {}
     raw = {} if mode == "flag" else None
+    phase = {}
+    tp = time.time()
     vf_facts, findings = analyse(progs, work, want_findings=(mode != "valueflow"), stats=stats, raw=raw)
     if mode == "valueflow":
         facts = vf_facts
@@ -420,7 +422,11 @@ def run_check(pid, tier, seed, progs, mode, sizes, ncore=0, core_total=0, assump
     else:
         active = list(range(len(progs)))
     sub = [progs[i] for i in active]
+    phase["cppcheck_and_fact_conversion"] = round(time.time() - tp, 1)
+    tp = time.time()
     ex = run_tlc(sub, cfg, cap, fuel) if sub else Execs()
+    phase["tlc"] = round(time.time() - tp, 1)
+    tp = time.time()
     for x in ex.rows:
         x["p"] = active[x["p"]]
     # ---- contradicted facts / reached flags, grouped
@@ -467,7 +473,10 @@ def run_check(pid, tier, seed, progs, mode, sizes, ncore=0, core_total=0, assump
                 prog["name"], pos[0] if pos else "?", pos[1] if pos else "?", val, ftxt, src, x["inp"], len(xs),
                 (" class " + cls) if cls else "")
         violations.append({"key": key, "replay": path, "what": what})
+    phase["native_witness_of_contradictions"] = round(time.time() - tp, 1)
+    tp = time.time()
     njudged, confbad = conformance(progs, ex.rows, rng, nconf)
+    phase["native_conformance_sample"] = round(time.time() - tp, 1)
     rc, new, known = vlib.verdict(pid, violations)
     for d in disagreements[:10]:
         print("MODEL-DISAGREEMENT (not reported against cppcheck): %s" % json.dumps(d)[:700])
@@ -519,15 +528,15 @@ def run_check(pid, tier, seed, progs, mode, sizes, ncore=0, core_total=0, assump
         "contradicted_facts_confirmed_natively": len(violations), "model_disagreements": len(disagreements) + len(confbad),
         "conformance_sample_judged": njudged, "tlc_invariant_reports": ex.tlc_violation_reports,
         "conversion_counters": {k: v for k, v in stats.items() if isinstance(v, int)},
-        "input_vectors_cap": cap, "step_budget": fuel,
+        "input_vectors_cap": cap, "step_budget": fuel, "phase_seconds": phase,
         "samples": [{"program": stext, "facts": [[n + 1, f] for n, fs in enumerate(sample["nf"]) for f in fs][:12], "one_execution": srow}],
     }
     if extra:
         cov.update(extra)
     vlib.write_evidence(pid, tier, seed, "model_checking", cov, time.time() - t0, violations=new, assumptions=list(assumptions))
     print("%s %s: %d programs (%d executed, %d core), %d facts (%d exercised: %s), %d executions %s, %d states, %d violations (%d known), "
-          "%d model disagreements" % (pid, tier, len(progs), len(active), ncore, nfacts, nexercised, kinds, len(ex.rows), by_status, ex.states,
-                                      new, known, len(disagreements) + len(confbad)))
+          "%d model disagreements; phases %s" % (pid, tier, len(progs), len(active), ncore, nfacts, nexercised, kinds, len(ex.rows), by_status, ex.states,
+                                      new, known, len(disagreements) + len(confbad), phase))
     return rc, cov
 
 
